@@ -216,6 +216,19 @@ def failInflight (s : State) (err : Err) : State × Decision :=
 
 def slice (l : List Nat) (a b : Nat) : List Nat := (l.drop a).take (b - a)
 
+/-- body of the loop of `assignInflightRecordsToWaiters` for a waiter that is still
+    pending: the updated waiter and the new `next` -/
+def assignOne (recs : List Nat) (w : Waiter) (count0 next : Nat) : Waiter × Nat :=
+  let count := if count0 == 0 then w.recs.length else count0
+  let e := if count > 0 then next + count else next + w.recs.length
+  let e := if e > recs.length then recs.length else e
+  let source := slice recs next e
+  -- both branches (assignStoredRecordMetadata / cloneRecords) leave the waiter
+  -- with the indexes of `source`
+  -- `if len(waiter.Records) > 0 { waiter.Target = last index }`
+  let tgt := if source.length > 0 then source.getLast?.getD 0 else w.target
+  ({ w with recs := source, target := tgt }, e)
+
 /-- `assignInflightRecordsToWaiters` (records = their already assigned indexes).
     Go would panic on `Records[next:end]` with next > end; that needs
     sum(WaiterRecordCounts) > len(Records), which no transition produces. -/
@@ -226,13 +239,8 @@ def assignLoop (recs : List Nat) : List Nat → List Nat → Nat → List Waiter
     match lookupW p op with
     | none => assignLoop recs ops counts.tail (next + count) p
     | some w =>
-      let count := if count == 0 then w.recs.length else count
-      let e := if count > 0 then next + count else next + w.recs.length
-      let e := if e > recs.length then recs.length else e
-      let source := slice recs next e
-      let w1 : Waiter := { w with recs := source }
-      let w2 : Waiter := if source.length > 0 then { w1 with target := source.getLast?.getD 0 } else w1
-      assignLoop recs ops counts.tail e (setW p w2)
+      let r := assignOne recs w count next
+      assignLoop recs ops counts.tail r.2 (setW p r.1)
 
 /-- `matchesInflightFence` -/
 def matchesFence (s : State) (f : Fence) : Bool :=
